@@ -417,6 +417,12 @@ def _eq(I, a, b):
             shape = broadcast_shapes(ta.shape, tb.shape)
             return Tensor(shape, [_eq(I, broadcast_get(ta, shape, i), broadcast_get(tb, shape, i)) for i in iter_idx(shape)], "bool")
         return False
+    if (isinstance(a, Sym) or isinstance(b, Sym)) and (isinstance(a, Ext) or isinstance(b, Ext)):
+        for x, y, refl in ((a, b, False), (b, a, True)):
+            if isinstance(x, Ext):
+                r = x.py_compare(I, "Eq", y, refl)
+                if r is not NotImplemented:
+                    return r
     if isinstance(a, Sym) or isinstance(b, Sym):
         if not (is_scalar(a) and is_scalar(b)):
             return False
